@@ -177,7 +177,14 @@ def edit_sm(rng, sf, nops):
     attrs = ["title", "artist", "stops", "bgchanges", "attacks", "displaybpm", "offset", "bpms"]
     for _ in range(nops):
         r = rng.random()
-        if r < 0.30:
+        if r < 0.012:
+            # every property deleted (one by one, or at once): a simfile of charts only, or an empty one, is a simfile
+            if rng.random() < 0.5:
+                for k in list(sf.keys()):
+                    del sf[k]
+            else:
+                sf.clear()
+        elif r < 0.30:
             k = rng.choice(list(sf.keys())) if sf and rng.random() < 0.5 else cc.rand_key(rng)
             if k == "NOTES":
                 continue
@@ -287,7 +294,10 @@ def edit_ssc(rng, sf, nops):
     cattrs = ["stepstype", "credit", "chartname", "attacks", "displaybpm", "bpms", "radarvalues", "description", "difficulty", "meter"]
     for _ in range(nops):
         r = rng.random()
-        if r < 0.03:
+        if r < 0.01:
+            for k in list(sf.keys()):
+                del sf[k]
+        elif r < 0.03:
             # VERSION values a reader might interpret (old, current, future, exponent form): still just a value
             sf["VERSION"] = rng.choice(["0.5", "0.53", "0.58", "0.59", "0.69", "0.7", "0.70", "0.83", "1", "0", "1e-3", "2.0"])
             if rng.random() < 0.5:
